@@ -255,14 +255,13 @@ func (c *Conn) Close() error {
 		c.readLock.Unlock()
 	}()
 
-	// Flush any remaining data to be written.
-	err := c.Flush()
-	if err != nil {
-		return err
-	}
-	err = c.closeFlushFunc()
-	if err != nil {
-		return err
+	// Flush any remaining data to be written. If that fails (an earlier packet
+	// was refused by the peer, say) the stream is closed all the same: the peer
+	// is still told, so that its reader gets end-of-file after the data it
+	// accepted instead of waiting for ever, and the flush error is returned.
+	flushErr := c.Flush()
+	if flushErr == nil {
+		flushErr = c.closeFlushFunc()
 	}
 
 	ctx := context.Background()
@@ -276,11 +275,18 @@ func (c *Conn) Close() error {
 		Type: stanza.SetIQ,
 	})
 	if err != nil {
+		if flushErr != nil {
+			return flushErr
+		}
 		return err
 	}
 	// The peer has acknowledged the close after sending whatever it still had
 	// for us.
-	return respReadCloser.Close()
+	err = respReadCloser.Close()
+	if flushErr != nil {
+		return flushErr
+	}
+	return err
 }
 
 func (c *Conn) closeNoNotify(t xmlstream.Encoder) error {
